@@ -1,4 +1,5 @@
 import python_minifier.ast_compat as ast
+from python_minifier.ast_annotation import get_parent
 
 from python_minifier.rename.binding import NameBinding
 from python_minifier.rename.name_generator import name_filter
@@ -58,6 +59,11 @@ def reservation_scope(namespace, binding):
     namespaces = {namespace}
 
     for node in binding.references:
+        if isinstance(node, ast.Name) and isinstance(get_parent(node), ast.NamedExpr) and get_parent(node).target is node:
+            # The target of an assignment expression is bound outside of any comprehension it is in,
+            # but the name is also used inside of those comprehension namespaces
+            node = get_parent(node)
+
         while node is not namespace:
             namespaces.add(node.namespace)
             node = node.namespace
